@@ -4170,9 +4170,11 @@ class EntityMeta(type):
             if obj._discriminator_ is not None:
                 if obj._subclasses_:
                     cls = obj.__class__
-                    if not issubclass(entity, cls) and not issubclass(cls, entity):
-                        throw(ObjectNotFound, entity, pkval)
                     seeds = cache.seeds[entity._pk_attrs_]
+                    if not issubclass(entity, cls) and not issubclass(cls, entity):
+                        # unrelated classes may still meet in a common subclass (diamond): only the row of an unloaded object tells
+                        if obj not in seeds or not cls._subclasses_.intersection(entity._subclasses_):
+                            throw(ObjectNotFound, entity, pkval)
                     if obj in seeds: obj._load_()
                 if not isinstance(obj, entity): throw(ObjectNotFound, entity, pkval)
             if obj._status_ == 'marked_to_delete': throw(ObjectNotFound, entity, pkval)
